@@ -18,7 +18,7 @@ RULE = ('per run: (tls_enable, require_tls in {None,True,False}, require_host_au
 COMPONENTS = dict(tc.COMPONENTS, simulated=tc.COMPONENTS['simulated'] + ['TLS handshake and record layer (dsim.tls): pass-through, '
                   'handshake succeeds/fails as the plan says; certificates and the repo\'s match_id / policy code are real'])
 PROBES = ('cell.secured-session', 'cell.contact-failure', 'cell.clear-session', 'cell.tls-attempt-violates-policy', 'cell.handshake-failed',
-          'cell.peer-refuses', 'probe.cert_absent', 'probe.ip_mismatch', 'probe.uri_mismatch', 'probe.host_required', 'probe.node_required', 'probe.dial_by_name', 'probe.dns_mismatch')
+          'cell.peer-refuses', 'probe.cert_absent', 'probe.ip_mismatch', 'probe.uri_mismatch', 'probe.host_required', 'probe.node_required', 'probe.dial_by_name', 'probe.dns_mismatch', 'fault.tcp_rewrite')
 ASSUMPTIONS = ['TLS cryptography is not simulated: the stub hands the configured peer certificate to getpeercert()',
                'ssl.match_hostname (removed in Python 3.12) is provided by the facade, see DESIGN 1.2',
                'Agent.connect() always dials by resolved IP address; to reach the DNS-ID branch of the policy half of the runs create the active contact the way Agent.connect does but with the DNS name kept (Agent._bind_handler)']
@@ -56,6 +56,14 @@ def gen(ch, tier):
         fail=ch.coin('hsfail', 1, 8),
         certs={side: _gen_cert(ch, side, tcpcl_pair.ADDR[side], plan['cfg'][side]['node_id']) for side in ('A', 'P')},
     )
+    # on-path corruption of the clear-text contact headers: reserved flag bits set in flight (the CAN_TLS bit itself is
+    # left alone, so what each side offers - and therefore the prediction - is unchanged)
+    rewrite = {}
+    for name in ('a2b', 'b2a'):
+        if ch.coin('chflags.' + name, 1, 4):
+            rewrite[name] = {'5': ch.choice('chmask', (0x02, 0x80, 0xFE, 0x40))}
+    if rewrite:
+        plan['net'] = dict(plan['net'], tcp_rewrite=rewrite)
     # a TLS server always presents a certificate
     if plan['tls']['certs']['P'] is None:
         plan['tls']['certs']['P'] = dict(ip=[], dns=[], uri=[])
